@@ -468,3 +468,459 @@ Proof.
   intros HI HF HN. apply run_conserved_strong; try assumption.
   apply all_none_accepted; [apply run_snd_length|exact HN].
 Qed.
+
+(* ------------------------------------------------------------------ rejected operations: nothing is created *)
+
+(** A rejected [transfer] or [distribute] keeps the effects it had before the failure (as the
+    library does): the liquid of the failing step may have left the source without reaching the
+    destination.  Amounts are therefore not conserved by rejected calls, but they never grow. *)
+
+Lemma remove_loop_no_gain items k : forall L, mix_inv L ->
+  Forall (fun p => vol_ok (snd p) = true) items ->
+  lw_amount (fst (remove_loop L items)) k <= lw_amount L k.
+Proof.
+  induction items as [|[w x] rest IH]; intros L HI HF; [apply Qle_refl|].
+  inversion HF as [|p r Hx Hrest]; subst. cbn [snd] in Hx.
+  rewrite remove_loop_cons'. destruct (lw_index L w) as [i|] eqn:Ei; [|apply Qle_refl].
+  destruct x as [v| | |]; try apply Qle_refl.
+  destruct (Qltb (Qred (vol_at L i - v)) (lw_min L)) eqn:E; [apply Qle_refl|].
+  assert (Hi : (i < n_wells (lw_geom L))%nat)
+    by (apply (lw_index_lt L w i); [exact (proj1 (proj1 HI))|exact Ei]).
+  assert (HI' : mix_inv (rem_step L i v)) by (apply rem_step_inv; [exact HI|apply Qltb_false'; exact E]).
+  eapply Qle_trans; [apply IH; assumption|].
+  rewrite lw_amount_rem_step by (try exact Hi; apply HI).
+  pose proof (vol_ok_XQ' v Hx) as Hv. pose proof (comp_inv_frac L k i (proj2 HI)) as [Hf _].
+  assert (Hp : 0 <= v * frac L k i) by (apply Qmult_le_0_compat; assumption). lra.
+Qed.
+
+Lemma remove_no_gain L wells vols label k : mix_inv L ->
+  lw_amount (fst (remove L wells vols label)) k <= lw_amount L k.
+Proof.
+  intro HI. unfold remove. destruct (prep_wells_vols wells vols) as [wv|e] eqn:EP; [|apply Qle_refl].
+  pose proof (remove_loop_no_gain wv k L HI (prep_wells_vols_vol_ok _ _ _ EP)) as H.
+  destruct (remove_loop L wv) as [L' [e|]]; cbn [fst] in *; exact H.
+Qed.
+
+Lemma items_amt_nonneg k items : Forall aitem_ok items -> 0 <= items_amt k items.
+Proof.
+  induction 1 as [|[[w x] oc] r [Hv Hoc] Hr IH]; cbn [items_amt]; [apply Qle_refl|].
+  cbn [fst snd] in Hv, Hoc.
+  assert (H0 : 0 <= match x, oc with XQ v, Some c => v * cget k c | _, _ => 0 end).
+  { destruct x as [v| | |]; try apply Qle_refl. destruct oc as [c|]; [|apply Qle_refl].
+    apply Qmult_le_0_compat; [apply vol_ok_XQ'; exact Hv|].
+    destruct Hoc as (_ & HB & _).
+    apply (cget_Forall (fun q => 0 <= q) k c); [|apply Qle_refl].
+    eapply Forall_impl; [|exact HB]. intros kf [H _]. exact H. }
+  lra.
+Qed.
+
+(** an [add_loop] of liquids of known composition, however far it gets, brings in at most the
+    component amounts of its items *)
+Lemma add_loop_no_excess items k : forall L, mix_inv L -> Forall aitem_ok items ->
+  Forall (fun it => snd it <> None) items ->
+  lw_amount (fst (add_loop L items)) k <= lw_amount L k + items_amt k items.
+Proof.
+  induction items as [|[[w x] oc] rest IH]; intros L HI HF HS.
+  - cbn [add_loop fst items_amt]. lra.
+  - pose proof (items_amt_nonneg k _ HF) as Hnn.
+    inversion HF as [|it r [Hv Hoc] Hrest]; subst. cbn [fst snd] in Hv, Hoc.
+    inversion HS as [|it r Hsome Hsrest]; subst. cbn [snd] in Hsome.
+    rewrite add_loop_cons'. destruct (lw_index L w) as [i|] eqn:Ei; [|cbn [fst]; lra].
+    destruct x as [v| | |]; try (cbn [fst]; lra).
+    destruct (Qgtb (Qred (vol_at L i + v)) (lw_max L)); [cbn [fst]; lra|].
+    destruct oc as [c|]; [|congruence].
+    assert (Hi : (i < n_wells (lw_geom L))%nat) by (apply (lw_index_lt L w i); [apply HI|exact Ei]).
+    pose proof (vol_ok_XQ' v Hv) as Hv0.
+    eapply Qle_trans; [apply IH; try assumption; apply add_step_inv; assumption|].
+    rewrite lw_amount_add_step by (try assumption; apply Hoc).
+    cbn [items_amt]. lra.
+Qed.
+
+Lemma add_no_excess L wells vols label cs k bound : mix_inv L -> Forall ocomp_ok cs ->
+  Forall (fun oc : option composition => oc <> None) cs -> 0 <= bound ->
+  (forall wv, prep_wells_vols wells vols = Ok wv -> length cs = length wv ->
+     items_amt k (map (fun p => (fst (fst p), snd (fst p), snd p)) (zip wv cs)) <= bound) ->
+  lw_amount (fst (add L wells vols label (Some cs))) k <= lw_amount L k + bound.
+Proof.
+  intros HI HC HS Hb HB. unfold add.
+  destruct (prep_wells_vols wells vols) as [wv|e] eqn:EP; [|cbn [fst]; lra].
+  destruct (length cs =? length wv)%nat eqn:El; cbn [negb]; [|cbn [fst]; lra].
+  apply Nat.eqb_eq in El. specialize (HB wv eq_refl El).
+  set (items := map (fun p => (fst (fst p), snd (fst p), snd p)) (zip wv cs)) in *.
+  pose proof (Forall_zip _ _ wv cs (prep_wells_vols_vol_ok _ _ _ EP) HC) as HZ.
+  assert (HF : Forall aitem_ok items).
+  { apply Forall_map. eapply Forall_impl; [|exact HZ]. intros [[w x] oc] [H1 H2]. split; assumption. }
+  assert (HS' : Forall (fun it => snd it <> None) items).
+  { apply Forall_map. pose proof (Forall_zip_r (fun oc : option composition => oc <> None) wv cs HS) as HZ2.
+    eapply Forall_impl; [|exact HZ2]. intros [[w x] oc] H. exact H. }
+  pose proof (add_loop_no_excess items k L HI HF HS') as H.
+  destruct (add_loop L items) as [L' [e|]]; cbn [fst] in *; [lra|].
+  change (lw_amount (log L' label) k) with (lw_amount L' k). lra.
+Qed.
+
+Lemma total_rem_step l ks Ls i v lab k : nth_error l ks = Some Ls -> mix_inv Ls ->
+  (i < n_wells (lw_geom Ls))%nat ->
+  total_amount (upd l ks (log (rem_step Ls i v) lab)) k == total_amount l k - v * frac Ls k i.
+Proof.
+  intros E HI Hi. rewrite (total_amount_upd l ks Ls _ k E).
+  change (lw_amount (log (rem_step Ls i v) lab) k) with (lw_amount (rem_step Ls i v) k).
+  rewrite lw_amount_rem_step by (try exact Hi; apply HI). ring.
+Qed.
+
+Lemma total_add_step l kd Ld i v c lab k : nth_error l kd = Some Ld -> mix_inv Ld ->
+  (i < n_wells (lw_geom Ld))%nat -> 0 <= v -> NoDup (map fst c) ->
+  total_amount (upd l kd (log (add_step Ld i v (Some c)) lab)) k == total_amount l k + v * cget k c.
+Proof.
+  intros E HI Hi Hv NC. rewrite (total_amount_upd l kd Ld _ k E).
+  change (lw_amount (log (add_step Ld i v (Some c)) lab) k) with (lw_amount (add_step Ld i v (Some c)) k).
+  rewrite lw_amount_add_step by assumption. ring.
+Qed.
+
+(** the labware list after a one-well [aspirate] / [dispense], accepted or rejected *)
+Lemma aspirate_single_lw s ks sw v kw l' : l' = st_lw (fst (aspirate s ks (A0 sw) (A0 (XQ v)) None kw)) ->
+  l' = st_lw s \/
+  exists Ls i, nth_error (st_lw s) ks = Some Ls /\ lw_index Ls sw = Some i /\ 0 <= v /\
+    lw_min Ls <= Qred (vol_at Ls i - v) /\ l' = upd (st_lw s) ks (log (rem_step Ls i v) None).
+Proof.
+  intro El. rewrite aspirate_st_lw in El.
+  destruct (nth_error (st_lw s) ks) as [Ls|] eqn:ELs; [|left; exact El].
+  cbn [flattenF broadcast length repeat] in El. rewrite remove_single in El.
+  destruct (Qle_bool 0 v) eqn:Ev;
+    [|left; rewrite El; apply upd_same_nth_error; exact ELs].
+  destruct (lw_index Ls sw) as [i|] eqn:Ei;
+    [|left; rewrite El; apply upd_same_nth_error; exact ELs].
+  destruct (Qltb (Qred (vol_at Ls i - v)) (lw_min Ls)) eqn:Eu;
+    [left; rewrite El; apply upd_same_nth_error; exact ELs|].
+  right. exists Ls, i. split; [reflexivity|]. split; [exact Ei|].
+  split; [apply Qle_bool_iff; exact Ev|]. split; [apply Qltb_false'; exact Eu|exact El].
+Qed.
+
+Lemma dispense_single_lw s kd dw v c kw l' :
+  l' = st_lw (fst (dispense s kd (A0 dw) (A0 (XQ v)) None (Some [Some c]) kw)) ->
+  l' = st_lw s \/
+  exists Ld i, nth_error (st_lw s) kd = Some Ld /\ lw_index Ld dw = Some i /\ 0 <= v /\
+    l' = upd (st_lw s) kd (log (add_step Ld i v (Some c)) None).
+Proof.
+  intro El. rewrite dispense_st_lw in El.
+  destruct (nth_error (st_lw s) kd) as [Ld|] eqn:ELd; [|left; exact El].
+  cbn [flattenF broadcast length repeat] in El. rewrite add_single in El.
+  destruct (Qle_bool 0 v) eqn:Ev;
+    [|left; rewrite El; apply upd_same_nth_error; exact ELd].
+  destruct (lw_index Ld dw) as [i|] eqn:Ei;
+    [|left; rewrite El; apply upd_same_nth_error; exact ELd].
+  destruct (Qgtb (Qred (vol_at Ld i + v)) (lw_max Ld)) eqn:Eo;
+    [left; rewrite El; apply upd_same_nth_error; exact ELd|].
+  right. exists Ld, i. split; [reflexivity|]. split; [exact Ei|].
+  split; [apply Qle_bool_iff; exact Ev|exact El].
+Qed.
+
+(** one pipetting step, accepted or rejected: either no amount changed, or exactly the aspirated
+    liquid [v * frac] of every component was lost (taken from the source, never dispensed) *)
+Lemma exec_step_amount s ks kd sw dw v ws kw k : st_inv s ->
+  total_amount (st_lw (fst (exec_step s ks kd sw dw v ws kw))) k == total_amount (st_lw s) k \/
+  exists Ls i, nth_error (st_lw s) ks = Some Ls /\ lw_index Ls sw = Some i /\ 0 <= v /\
+    total_amount (st_lw (fst (exec_step s ks kd sw dw v ws kw))) k
+    == total_amount (st_lw s) k - v * frac Ls k i.
+Proof.
+  intro HI. unfold exec_step.
+  pose proof (aspirate_inv s ks (A0 sw) (A0 (XQ v)) None kw HI) as HI1.
+  destruct (aspirate s ks (A0 sw) (A0 (XQ v)) None kw) as [s1 [e|]] eqn:EA; cbn [fst] in HI1.
+  - cbn [fst].
+    destruct (aspirate_single_lw s ks sw v kw (st_lw s1)) as [E|(Ls & i & ELs & Ei & Hv & Hmin & E)];
+      [rewrite EA; reflexivity| |].
+    + left. rewrite E. reflexivity.
+    + right. exists Ls, i. split; [exact ELs|]. split; [exact Ei|]. split; [exact Hv|].
+      rewrite E. pose proof (st_inv_nth s ks Ls HI ELs) as HLs.
+      apply total_rem_step; [exact ELs|exact HLs|].
+      apply (lw_index_lt Ls sw); [apply HLs|exact Ei].
+  - destruct (aspirate_single s ks sw v kw s1 EA) as (Ls & i_s & ELs & Eis & Hv & Hmin & Es1).
+    assert (EL1 : nth_error (st_lw s1) ks = Some (log (rem_step Ls i_s v) None)).
+    { rewrite Es1, (nth_error_upd _ _ _ _ _ ELs), Nat.eqb_refl. reflexivity. }
+    rewrite EL1. unfold get_well_composition.
+    rewrite (lw_index_geom' (log (rem_step Ls i_s v) None) Ls sw eq_refl), Eis.
+    rewrite well_composition_at_wca. cbn [log set_hist rem_step set_vols lw_comp].
+    pose proof (st_inv_nth s ks Ls HI ELs) as HLs.
+    assert (His : (i_s < n_wells (lw_geom Ls))%nat) by (apply (lw_index_lt Ls sw); [apply HLs|exact Eis]).
+    assert (T1 : total_amount (st_lw s1) k == total_amount (st_lw s) k - v * frac Ls k i_s)
+      by (rewrite Es1; apply total_rem_step; assumption).
+    pose proof (wca_comp_ok Ls i_s HLs) as [(NC & _) _].
+    pose proof (dispense_single_lw s1 kd dw v (wca (lw_comp Ls) i_s) kw) as HD.
+    destruct (dispense s1 kd (A0 dw) (A0 (XQ v)) None (Some [Some (wca (lw_comp Ls) i_s)]) kw) as [s2 [e2|]];
+      cbn [fst] in HD; [|destruct (tip_action (st_wl s2) ws) as [w e]]; cbn [fst set_wl st_lw];
+      (destruct (HD (st_lw s2) eq_refl) as [E|(Ld & i_d & ELd & Eid & _ & E)];
+       [right; exists Ls, i_s; split; [exact ELs|]; split; [exact Eis|]; split; [exact Hv|];
+        rewrite E; exact T1
+       |left; rewrite E;
+        pose proof (st_inv_nth s1 kd Ld HI1 ELd) as HLd;
+        assert (Hid : (i_d < n_wells (lw_geom Ld))%nat)
+          by (apply (lw_index_lt Ld dw); [apply HLd|exact Eid]);
+        rewrite (total_add_step (st_lw s1) kd Ld i_d v (wca (lw_comp Ls) i_s) None k ELd HLd Hid Hv NC);
+        rewrite T1; rewrite (wca_get_pfrac Ls k i_s) by apply HLs;
+        rewrite (pfrac_nonneg Ls k i_s) by apply (comp_inv_frac Ls k i_s (proj2 HLs)); ring]).
+Qed.
+
+(** ... and a rejected step is the only way to lose anything *)
+Lemma exec_step_amount_cases s ks kd sw dw v ws kw k : st_inv s ->
+  total_amount (st_lw (fst (exec_step s ks kd sw dw v ws kw))) k == total_amount (st_lw s) k \/
+  snd (exec_step s ks kd sw dw v ws kw) <> None /\
+  exists Ls i, nth_error (st_lw s) ks = Some Ls /\ lw_index Ls sw = Some i /\ 0 <= v /\
+    total_amount (st_lw (fst (exec_step s ks kd sw dw v ws kw))) k
+    == total_amount (st_lw s) k - v * frac Ls k i.
+Proof.
+  intro HI. destruct (exec_step s ks kd sw dw v ws kw) as [s' [e|]] eqn:E.
+  - pose proof (exec_step_amount s ks kd sw dw v ws kw k HI) as H. rewrite E in H.
+    destruct H as [H|H]; [left; exact H|right; split; [discriminate|exact H]].
+  - left. cbn [fst]. exact (exec_step_conserved s ks kd sw dw v ws kw s' k HI E).
+Qed.
+
+Lemma exec_step_no_gain s ks kd sw dw v ws kw k : st_inv s ->
+  total_amount (st_lw (fst (exec_step s ks kd sw dw v ws kw))) k <= total_amount (st_lw s) k.
+Proof.
+  intro HI. destruct (exec_step_amount s ks kd sw dw v ws kw k HI) as [H|(Ls & i & ELs & _ & Hv & H)];
+    rewrite H; [apply Qle_refl|].
+  pose proof (comp_inv_frac Ls k i (proj2 (st_inv_nth s ks Ls HI ELs))) as [Hf _].
+  assert (Hp : 0 <= v * frac Ls k i) by (apply Qmult_le_0_compat; assumption). lra.
+Qed.
+
+Lemma exec_no_gain acts : forall s ks kd ws kw k, st_inv s ->
+  total_amount (st_lw (fst (exec s ks kd acts ws kw))) k <= total_amount (st_lw s) k.
+Proof.
+  induction acts as [|a rest IH]; intros s ks kd ws kw k HI; [apply Qle_refl|].
+  destruct a as [sw dw v|]; cbn [exec].
+  - pose proof (exec_step_inv s ks kd sw dw v ws kw HI) as H1.
+    pose proof (exec_step_no_gain s ks kd sw dw v ws kw k HI) as H2.
+    destruct (exec_step s ks kd sw dw v ws kw) as [s' [e|]]; cbn [fst] in *; [exact H2|].
+    eapply Qle_trans; [apply IH; exact H1|exact H2].
+  - exact (IH (set_wl s (fst (commit (st_wl s)))) ks kd ws kw k HI).
+Qed.
+
+Lemma transfer_no_gain s ks swells kd dwells vols label ws pb kw k : st_inv s ->
+  total_amount (st_lw (fst (transfer s ks swells kd dwells vols label ws pb kw))) k
+  <= total_amount (st_lw s) k.
+Proof.
+  intro HI. unfold transfer.
+  destruct (w_dev (st_wl s)); try apply Qle_refl;
+  (destruct (nth_error (st_lw s) ks) as [Ls|]; [|apply Qle_refl];
+   destruct (nth_error (st_lw s) kd) as [Ld|]; [|apply Qle_refl];
+   cbv zeta;
+   match goal with |- context [if negb ?b then _ else _] => destruct (negb b); [apply Qle_refl|] end;
+   match goal with |- context [if existsb ?f ?l then _ else _] => destruct (existsb f l); [apply Qle_refl|] end;
+   match goal with |- context [if ?a || ?b then _ else _] => destruct (a || b); [apply Qle_refl|] end;
+   destruct (optimize_partition_by (is_trough (lw_geom Ls)) (is_trough (lw_geom Ld)) pb) as [mode|e];
+     [|apply Qle_refl];
+   destruct (comment (st_wl s) label) as [w [e|]]; [apply Qle_refl|];
+   match goal with |- context [exec ?s0 ?a ?b ?acts ?c ?d] =>
+     pose proof (exec_no_gain acts s0 a b c d k HI) as HE; destruct (exec s0 a b acts c d) as [s' [e|]] end;
+   cbn [fst set_wl st_lw] in *; [exact HE|];
+   match goal with |- context [if ?b then _ else _] => destruct b end; cbn [fst];
+   rewrite ?condense_at_amount; exact HE).
+Qed.
+
+Lemma distribute_no_gain s ks kd dwells a k : st_inv s ->
+  total_amount (st_lw (fst (distribute s ks kd dwells a))) k <= total_amount (st_lw s) k.
+Proof.
+  intro HI. unfold distribute.
+  destruct (nth_error (st_lw s) ks) as [Ls|] eqn:ELs; [|apply Qle_refl].
+  destruct (nth_error (st_lw s) kd) as [Ld|] eqn:ELd; [|apply Qle_refl].
+  pose proof (st_inv_nth s ks Ls HI ELs) as HLs.
+  destruct (g_vrows (lw_geom Ls)) as [vr|]; [|apply Qle_refl].
+  destruct (rvol_x (d_volume a)) as [xv|]; [|apply Qle_refl].
+  match goal with |- total_amount (st_lw (fst (match xv with XQ _ => ?B | _ => _ end))) k <= _ =>
+    assert (HB : total_amount (st_lw (fst B)) k <= total_amount (st_lw s) k);
+      [|destruct xv; [exact HB|apply Qle_refl|exact HB|exact HB]] end.
+  match goal with |- context [if ?b then (s, Some EInvalidOp) else _] => destruct b; [apply Qle_refl|] end.
+  cbv zeta.
+  match goal with |- context [if existsb ?f ?l then (s, Some EReject) else _] =>
+    destruct (existsb f l); [apply Qle_refl|] end.
+  destruct (positions_of (w_dev (st_wl s)) (lw_geom Ld) (flattenF dwells)) as [ps|e]; [|apply Qle_refl].
+  destruct (sort_Z (map Z.of_nat ps)) as [|p0 sorted']; [apply Qle_refl|].
+  match goal with |- context [if negb ?b then _ else _] => destruct (negb b); [apply Qle_refl|] end.
+  match goal with |- context [remove Ls ?w ?x ?lab] =>
+    pose proof (remove_no_gain Ls w x lab k HLs) as HRG;
+    destruct (remove Ls w x lab) as [Ls' [e|]] eqn:ER; cbn [fst] in HRG end.
+  { (* the removal from the source column was rejected *)
+    cbn [fst set_lw st_lw]. rewrite (total_amount_upd _ ks Ls Ls' k ELs). lra. }
+  destruct (remove_A0_ok _ _ _ _ _ ER) as (V & i_s & EV & HV & Eis & Hmin & ELs').
+  assert (His : (i_s < n_wells (lw_geom Ls))%nat)
+    by (apply (lw_index_lt Ls (well_id 0 (Z.to_nat (d_source_column a))) i_s); [apply HLs|exact Eis]).
+  assert (HLs' : mix_inv Ls') by (rewrite ELs'; apply log_inv; apply rem_step_inv; assumption).
+  assert (HI1 : st_inv (set_lw s ks Ls'))
+    by (unfold st_inv; cbn [set_lw st_lw]; apply Forall_upd'; [exact HI|exact HLs']).
+  pose proof (comp_inv_frac Ls k i_s (proj2 HLs)) as [Hf _].
+  assert (Hp : 0 <= V * frac Ls k i_s) by (apply Qmult_le_0_compat; assumption).
+  assert (T1 : total_amount (st_lw (set_lw s ks Ls')) k == total_amount (st_lw s) k - V * frac Ls k i_s).
+  { cbn [set_lw st_lw]. rewrite ELs'. apply total_rem_step; assumption. }
+  match goal with |- context [get_well_composition Ls' ?w] =>
+    destruct (get_well_composition Ls' w) as [c|e] eqn:EC end; [|cbn [fst]; rewrite T1; lra].
+  assert (Ec : c = wca (lw_comp Ls) i_s).
+  { unfold get_well_composition in EC. rewrite ELs' in EC.
+    rewrite (lw_index_geom' (log (rem_step Ls i_s V) (d_label a)) Ls _ eq_refl), Eis in EC.
+    rewrite well_composition_at_wca in EC. inversion EC. reflexivity. }
+  pose proof (wca_comp_ok Ls i_s HLs) as [HC _]. rewrite <- Ec in HC.
+  assert (Hc : cget k c == frac Ls k i_s).
+  { rewrite Ec, (wca_get_pfrac Ls k i_s) by apply HLs. apply pfrac_nonneg. exact Hf. }
+  destruct (nth_error (st_lw (set_lw s ks Ls')) kd) as [Ld1|] eqn:ELd1; [|cbn [fst]; rewrite T1; lra].
+  pose proof (st_inv_nth _ kd Ld1 HI1 ELd1) as HLd1.
+  (* the volume per destination is a number *)
+  destruct xv as [q| | |]; unfold xmul_nat in EV; try (destruct (length ps =? 0)%nat; discriminate).
+  assert (EV' : Qred (q * inject_Z (Z.of_nat (length ps))) = V) by congruence.
+  match goal with |- context [add Ld1 ?w ?x ?lab (Some ?cs)] =>
+    assert (HA : lw_amount (fst (add Ld1 w x lab (Some cs))) k <= lw_amount Ld1 k + V * frac Ls k i_s) end.
+  { apply add_no_excess; try assumption.
+    - apply Forall_forall. intros oc Hoc. apply repeat_spec in Hoc. subst oc. exact HC.
+    - apply Forall_forall. intros oc Hoc. apply repeat_spec in Hoc. subst oc. discriminate.
+    - intros wv EP Elen. rewrite repeat_length in Elen. rewrite Elen.
+      rewrite (items_amt_const k q c wv (prep_A1_A0 _ _ _ EP)).
+      rewrite <- Elen, <- EV', Qred_correct, Hc. apply Qle_lteq. right. ring. }
+  match goal with |- context [add Ld1 ?w ?x ?lab ?cs] =>
+    destruct (add Ld1 w x lab cs) as [Ld' [e|]]; cbn [fst] in HA end.
+  { (* the addition was rejected, possibly after some of the wells were filled *)
+    cbn [fst set_lw st_lw]. cbn [set_lw st_lw] in ELd1, T1.
+    rewrite (total_amount_upd _ kd Ld1 Ld' k ELd1), T1. lra. }
+  assert (Hfinal : total_amount (upd (upd (st_lw s) ks Ls') kd Ld') k <= total_amount (st_lw s) k).
+  { cbn [set_lw st_lw] in ELd1, T1. rewrite (total_amount_upd _ kd Ld1 Ld' k ELd1), T1. lra. }
+  destruct (ks =? kd)%nat;
+  match goal with |- context [comment (st_wl ?s2) ?lab] =>
+    destruct (comment (st_wl s2) lab) as [w1 [e|]] end;
+  try match goal with |- context [reagent_distribution ?w ?args] =>
+    destruct (reagent_distribution w args) as [w2 e2] end;
+  cbn [fst set_wl st_lw]; rewrite ?condense_at_amount; cbn [set_lw st_lw]; exact Hfinal.
+Qed.
+
+(** one step of a closed program, accepted or rejected: no component amount grows *)
+Lemma step_no_gain s o k : st_inv s -> op_closed o ->
+  total_amount (st_lw (fst (step s o))) k <= total_amount (st_lw s) k.
+Proof.
+  intros HI HC.
+  destruct o as [k0 ws vs l cs|k0 ws vs l|k0 n l|k0 ws vs l kw|k0 ws vs l cs kw|ks sw kd dw vs l sch pb kw
+                |ks kd dw a|c|sch| | | |i|a|a|a|k0 a l|k0 a l cs|a];
+    try (destruct HC); try (rewrite step_record_only by exact I; apply Qle_refl).
+  - rewrite step_condense, condense_at_amount. apply Qle_refl.
+  - cbn [step]. apply transfer_no_gain. exact HI.
+  - cbn [step]. apply distribute_no_gain. exact HI.
+Qed.
+
+Lemma run_no_gain ops : forall s k, st_inv s -> Forall op_closed ops ->
+  total_amount (st_lw (fst (run s ops))) k <= total_amount (st_lw s) k.
+Proof.
+  induction ops as [|o r IH]; intros s k HI HF; [apply Qle_refl|].
+  inversion HF as [|o' r' Ho Hr]; subst. rewrite run_fst_cons.
+  eapply Qle_trans; [apply IH; [|exact Hr]|apply step_no_gain; assumption].
+  apply step_inv; [exact HI|]. apply op_closed_comps_ok. exact Ho.
+Qed.
+
+(* ------------------------------------------------------------------ the counterexample *)
+
+#[local] Open Scope string_scope.
+
+(** 200 of "stock" in A01, 50 in B01, at most 220 per well: moving the 200 to B01 overflows B01
+    after A01 has been emptied *)
+Definition cx_args : lw_args :=
+  {| a_name := "P"; a_rows := PInt 2; a_cols := PInt 1; a_min := XQ 0; a_max := XQ 220;
+     a_init := Some (A1 [XQ 200; XQ 50]); a_vrows := None;
+     a_names := [("A01", Some "stock")] |}.
+Definition cx_w0 : wstate :=
+  {| w_recs := []; w_max := 950; w_autosplit := true; w_diti := false; w_dev := Evo |}.
+Definition cx_op : op := OTransfer 0 (A0 "A01") 0 (A0 "B01") (A0 200) None SFlush "auto" kw_default.
+
+(** conservation does NOT extend to rejected transfers *)
+Lemma rejected_transfer_loses :
+  exists s o k, st_inv s /\ op_closed o /\ snd (step s o) = Some EOverflow /\
+    total_amount (st_lw s) k == 200 /\ total_amount (st_lw (fst (step s o))) k == 0.
+Proof.
+  destruct (mk_labware cx_args) as [L|e] eqn:E; [|vm_compute in E; discriminate].
+  pose proof (mk_labware_mix_inv cx_args L E) as HL.
+  exists {| st_lw := [L]; st_wl := cx_w0 |}, cx_op, "stock".
+  split; [constructor; [exact HL|constructor]|]. split; [exact I|].
+  vm_compute in E. inversion E; subst L. vm_compute. repeat split.
+Qed.
+
+(* ------------------------------------------------------------------ the classes, spelled out *)
+
+Lemma op_classes_spec (o : op) :
+  op_comps_ok o = match o with
+                  | OAdd _ _ _ _ cs => comps_ok cs
+                  | ODispense _ _ _ _ cs _ => comps_ok cs
+                  | OEvoDisp _ _ _ cs => comps_ok cs
+                  | _ => True
+                  end /\
+  op_comps_known o = match o with
+                     | OAdd _ _ _ _ cs => comps_known cs
+                     | ODispense _ _ _ _ cs _ => comps_known cs
+                     | OEvoDisp _ _ _ cs => comps_known cs
+                     | _ => True
+                     end.
+Proof. destruct o; split; reflexivity. Qed.
+
+(* ------------------------------------------------------------------ a decision procedure for the
+   hypotheses on caller-supplied compositions (for examples and for callers) *)
+
+#[local] Close Scope string_scope.
+
+Fixpoint nodupb (l : list string) : bool :=
+  match l with [] => true | x :: r => negb (mem_str x r) && nodupb r end.
+
+Lemma nodupb_NoDup l : nodupb l = true -> NoDup l.
+Proof.
+  induction l as [|x r IH]; intro H; [constructor|]. cbn [nodupb] in H.
+  apply andb_prop in H. destruct H as [H1 H2]. constructor; [|apply IH; exact H2].
+  apply mem_str_false. destruct (mem_str x r); [discriminate|reflexivity].
+Qed.
+
+Definition comp_okb (c : composition) : bool :=
+  nodupb (map fst c) && forallb (fun kf => Qle_bool 0 (snd kf) && Qle_bool (snd kf) 1) c
+  && Qle_bool (Qsum (map snd c)) 1.
+
+Lemma comp_okb_ok c : comp_okb c = true -> comp_ok c.
+Proof.
+  unfold comp_okb. intro H. apply andb_prop in H. destruct H as [H H3].
+  apply andb_prop in H. destruct H as [H1 H2].
+  split; [apply nodupb_NoDup; exact H1|]. split; [|apply Qle_bool_iff; exact H3].
+  apply Forall_forall. intros kf Hkf. rewrite forallb_forall in H2. specialize (H2 kf Hkf).
+  apply andb_prop in H2. destruct H2 as [Ha Hb]. split; apply Qle_bool_iff; assumption.
+Qed.
+
+Definition comps_okb (comps : option (list (option composition))) : bool :=
+  match comps with
+  | Some cs => forallb (fun oc => match oc with Some c => comp_okb c | None => true end) cs
+  | None => true
+  end.
+
+Definition comps_knownb (comps : option (list (option composition))) : bool :=
+  match comps with
+  | Some cs => forallb (fun oc => match oc with
+                                  | Some c => Qeq_bool (Qsum (map snd c)) 1
+                                  | None => false
+                                  end) cs
+  | None => false
+  end.
+
+Lemma comps_okb_ok comps : comps_okb comps = true -> comps_ok comps.
+Proof.
+  destruct comps as [cs|]; [|intros _; exact I]. cbn [comps_okb comps_ok]. intro H.
+  apply Forall_forall. intros oc Hoc. rewrite forallb_forall in H. specialize (H oc Hoc).
+  destruct oc as [c|]; [|exact I]. apply comp_okb_ok. exact H.
+Qed.
+
+Lemma comps_knownb_ok comps : comps_knownb comps = true -> comps_known comps.
+Proof.
+  destruct comps as [cs|]; [|discriminate]. cbn [comps_knownb comps_known]. intro H.
+  apply Forall_forall. intros oc Hoc. rewrite forallb_forall in H. specialize (H oc Hoc).
+  destruct oc as [c|]; [|discriminate]. apply Qeq_bool_iff. exact H.
+Qed.
+
+Definition op_comps_okb (o : op) : bool :=
+  match op_comps o with Some cs => comps_okb cs | None => true end.
+Definition op_comps_knownb (o : op) : bool :=
+  match op_comps o with Some cs => comps_knownb cs | None => true end.
+
+Lemma ops_check ops :
+  (forallb op_comps_okb ops = true -> Forall op_comps_ok ops) /\
+  (forallb op_comps_knownb ops = true -> Forall op_comps_known ops).
+Proof.
+  split; intro H; apply Forall_forall; intros o Ho; rewrite forallb_forall in H; specialize (H o Ho).
+  - unfold op_comps_okb in H. unfold op_comps_ok. destruct (op_comps o) as [cs|]; [|exact I].
+    apply comps_okb_ok. exact H.
+  - unfold op_comps_knownb in H. unfold op_comps_known. destruct (op_comps o) as [cs|]; [|exact I].
+    apply comps_knownb_ok. exact H.
+Qed.
